@@ -614,6 +614,81 @@ def zooSpec (vars params : List String) (approx : Approx) (r : ZLinkRow) : Optio
                      power := paramLeaf params ("pump_power[" ++ r.name ++ "]") },
          pump := r.pump }
 
+/-! ### semantic comparison of rows: polynomial normal form over opaque atoms
+
+A row is a polynomial (with `Rat` coefficients) in ATOMS: leaves and every sub-expression that is not `+ − * neg`, a constant or
+a power with exponent 1, 2, 3 (so `abs(f)**1.852`, `sign(f)`, `k**0.5`, quotients … stay opaque and are compared syntactically).
+A monomial is the list of its atoms with repetition (`x²` is `[x, x]`), compared up to permutation; two rows are equivalent
+when the difference of their polynomials cancels monomial by monomial.  Conditional rows are compared branch by branch
+(conditions: same bounds, equivalent bodies).  Soundness (`rowEquiv a b = true → ∀ env, eval a = eval b` over ℝ) is
+`Lemmas/LinkRowsNorm.lean`. -/
+
+abbrev Mono := List Expr
+abbrev Poly := List (Mono × Rat)
+
+def Poly.neg (p : Poly) : Poly := p.map fun x => (x.1, -x.2)
+def Poly.mul (p q : Poly) : Poly := p.flatMap fun x => q.map fun y => (x.1 ++ y.1, x.2 * y.2)
+
+/-- exponents the evaluator's `pow` shares with repeated multiplication -/
+def smallPow : Expr → Option Nat
+  | .const q => if q = 1 then some 1 else if q = 2 then some 2 else if q = 3 then some 3 else none
+  | _ => none
+
+def toPoly : Expr → Poly
+  | .var i => [([.var i], 1)]
+  | .param i => [([.param i], 1)]
+  | .const q => [([], q)]
+  | .bin op a b =>
+    (match op with
+     | .add => toPoly a ++ toPoly b
+     | .sub => toPoly a ++ Poly.neg (toPoly b)
+     | .mul => Poly.mul (toPoly a) (toPoly b)
+     | .div => [([.bin .div a b], 1)]
+     | .pow =>
+       (match smallPow b with
+        | some 1 => toPoly a
+        | some 2 => Poly.mul (toPoly a) (toPoly a)
+        | some 3 => Poly.mul (toPoly a) (Poly.mul (toPoly a) (toPoly a))
+        | _ => [([.bin .pow a b], 1)]))
+  | .un op a =>
+    (match op with
+     | .neg => Poly.neg (toPoly a)
+     | _ => [([.un op a], 1)])
+  | .ifElse c t e => [([.ifElse c t e], 1)]
+  | .ineq b lb ub => [([.ineq b lb ub], 1)]
+
+def sumC : List Rat → Rat
+  | [] => 0
+  | x :: t => x + sumC t
+
+/-- the polynomial is identically zero: repeatedly take the first monomial, add up the coefficients of all monomials equal to it
+up to permutation, require 0, continue with the rest (`fuel` ≥ length) -/
+def cancels : Nat → Poly → Bool
+  | _, [] => true
+  | 0, _ :: _ => false
+  | n + 1, x :: rest =>
+    let same := rest.filter (fun y => y.1.isPerm x.1)
+    let others := rest.filter (fun y => !y.1.isPerm x.1)
+    decide (x.2 + sumC (same.map (·.2)) = 0) && cancels n others
+
+def polyEquiv (a b : Expr) : Bool :=
+  let p := toPoly a ++ Poly.neg (toPoly b)
+  cancels p.length p
+
+def condEquiv : Expr → Expr → Bool
+  | .ineq b1 l1 u1, .ineq b2 l2 u2 => decide (l1 = l2) && decide (u1 = u2) && polyEquiv b1 b2
+  | c1, c2 => decide (c1 = c2)
+
+def rowEquiv : Expr → Expr → Bool
+  | .ifElse c1 t1 e1, .ifElse c2 t2 e2 => condEquiv c1 c2 && rowEquiv t1 t2 && rowEquiv e1 e2
+  | a, b => polyEquiv a b
+
+/-- the generated row is EQUIVALENT (as a polynomial over opaque atoms, branch by branch) to the parametric row -/
+def linkRowOkSem (hw : HWConsts) (pc : PumpConsts) (lit : RowLits) (vars params : List String) (approx : Approx) (r : ZLinkRow) : Bool :=
+  match zooSpec vars params approx r with
+  | some s => rowEquiv r.expr (linkRow hw pc lit s)
+  | none => false
+
 /-- the generated row IS the parametric row of the link's kind / status / end nodes -/
 def linkRowOk (hw : HWConsts) (pc : PumpConsts) (lit : RowLits) (vars params : List String) (approx : Approx) (r : ZLinkRow) : Bool :=
   match zooSpec vars params approx r with
